@@ -115,6 +115,9 @@ mod kani_harness {
 	inst7!(4, 9, c07_folder_4_c0, c07_folder_4_c1, c07_folder_4_c2, c07_folder_4_c3, c07_folder_4_c4, c07_folder_4_c5, c07_folder_4_c6);
 	inst7!(5, 10, c07_folder_5_c0, c07_folder_5_c1, c07_folder_5_c2, c07_folder_5_c3, c07_folder_5_c4, c07_folder_5_c5, c07_folder_5_c6);
 	inst7!(6, 11, c07_folder_6_c0, c07_folder_6_c1, c07_folder_6_c2, c07_folder_6_c3, c07_folder_6_c4, c07_folder_6_c5, c07_folder_6_c6);
+	inst7!(7, 12, c07_folder_7_c0, c07_folder_7_c1, c07_folder_7_c2, c07_folder_7_c3, c07_folder_7_c4, c07_folder_7_c5, c07_folder_7_c6);
+	inst7!(8, 13, c07_folder_8_c0, c07_folder_8_c1, c07_folder_8_c2, c07_folder_8_c3, c07_folder_8_c4, c07_folder_8_c5, c07_folder_8_c6);
+	inst7!(9, 14, c07_folder_9_c0, c07_folder_9_c1, c07_folder_9_c2, c07_folder_9_c3, c07_folder_9_c4, c07_folder_9_c5, c07_folder_9_c6);
 
 	// vacuity witness: some request does reach File::open inside the root
 	#[kani::proof]
